@@ -102,6 +102,10 @@ EXPLANATION += (
     ' Round 14: the iteration count and the bootstrap factors are handed on as received along the election chain (R-FWD/handed-on-unchanged); a sample drawn without replacement never exceeds the population (R-CAP/sample-within-population).'
 )
 
+EXPLANATION += (
+    ' Round 15: ancestor marker lists are added nearest first (R-PROV/ancestors-nearest-first, rule of C08).'
+)
+
 RULE_TEXT = (
     "one obligation per draw, per block, per indexed comprehension, per "
     "provenance relation, per kernel function x configuration (type and "
